@@ -693,7 +693,7 @@ pub fn run(ctx: &Ctx) {
         let mut t2 = Tape::new(&sub);
         cleartext_case(&mut t2, rec, String::from_utf8(s).unwrap(), cheap)
     });
-    let n = ctx.tier.pick(4000u64, 60000);
+    let n = ctx.tier.pick(4000u64, 360_000);
     ctx.group("random-sigma-data", Source::Random { n, tape_len: 400 }, |t, rec| {
         let payload = if t.chance(90) {
             // long, with line-ending material on buffer edges
@@ -720,7 +720,7 @@ pub fn run(ctx: &Ctx) {
     });
     // all zoo signing algorithms, sampled
     let all = zoo::ALL_SIGNERS;
-    let n = ctx.tier.pick(150u64, 3000);
+    let n = ctx.tier.pick(150u64, 18_000);
     zoo::warm(all);
     ctx.group("all-algorithms-data", Source::Random { n, tape_len: 300 }, |t, rec| {
         let payload = random_text(t, 24).into_bytes();
@@ -731,10 +731,10 @@ pub fn run(ctx: &Ctx) {
         cleartext_case(t, rec, text, all)
     });
     zoo::warm(&MANY_KINDS);
-    let per_kind = ctx.tier.pick(1200u64, 20_000);
+    let per_kind = ctx.tier.pick(1200u64, 120_000);
     ctx.group("many-signatures-per-algorithm", Source::Indexed { count: per_kind * MANY_KINDS.len() as u64 }, |t, rec| many_signatures_case(t, rec, per_kind));
     let cert_kinds = [Kind::Ed25519V4, Kind::Ed25519V6, Kind::EdLegacyV4, Kind::P256V4, Kind::RsaV4];
     zoo::warm(&[Kind::Ed25519V4B, Kind::Ed25519V6B, Kind::EdLegacyV4B, Kind::P256V4B, Kind::RsaV4B, Kind::RsaV4]);
-    let n = ctx.tier.pick(3000u64, 60_000);
+    let n = ctx.tier.pick(3000u64, 360_000);
     ctx.group("certificate-signature-apis", Source::Random { n, tape_len: 200 }, |t, rec| certificate_signature_case(t, rec, &cert_kinds));
 }
